@@ -1,12 +1,32 @@
 #!/usr/bin/env python3
 """Single entry point:  tools/check.py Cnn --tier quick|thorough [--replay file]"""
-import argparse, importlib, os, sys, traceback
+import argparse, atexit, importlib, os, shutil, signal, sys, tempfile, time, traceback
 sys.path.insert(0, os.path.dirname(os.path.abspath(__file__)))
 from ltv import common as C
 from ltv.runner import Ctx
 
 
+def private_tmp():
+    """Everything a run creates (python tempfile, harness mkdtemp, server roots) goes below one
+    directory that is removed when the run ends, however it ends; leftovers of killed runs go too."""
+    base = tempfile.gettempdir()
+    try:
+        for n in os.listdir(base):
+            p = os.path.join(base, n)
+            if n.startswith("ltvrun.") and time.time() - os.path.getmtime(p) > 3 * 3600:
+                shutil.rmtree(p, ignore_errors=True)
+    except OSError:
+        pass
+    root = tempfile.mkdtemp(prefix="ltvrun.")
+    os.environ["TMPDIR"] = root
+    tempfile.tempdir = root
+    atexit.register(shutil.rmtree, root, True)
+    for sig in (signal.SIGTERM, signal.SIGHUP):
+        signal.signal(sig, lambda *_: sys.exit(143))
+
+
 def main():
+    private_tmp()
     ap = argparse.ArgumentParser()
     ap.add_argument("pid")
     ap.add_argument("--tier", default=os.environ.get("VERIF_TIER", "quick"),
